@@ -78,5 +78,5 @@ func verifArchPayload(o scen.Options) {
 	v.Assert(es[len(wants)].Name == ".PKGINFO" && es[len(wants)+1].Name == ".MTREE", "arch-metadata-members")
 }
 
-// Verif_C01_C_ArchSources_Thorough: a tree, a directory source expanded by the glob model, an on-disk symlink.
-func Verif_C01_C_ArchSources_Thorough() { verifArchPayload(scen.Options{Second: -4}) }
+// Verif_C01_C_ArchSources: a tree, a directory source expanded by the glob model, an on-disk symlink.
+func Verif_C01_C_ArchSources() { verifArchPayload(scen.Options{Second: -4}) }
